@@ -42,6 +42,10 @@ pub fn event_class(w: &World, member: &str, i: usize) -> String {
     format!("{k}.{own}.{rel}")
 }
 
+pub fn welcome_class(w: &World, member: &str, i: usize) -> String {
+    if w.welcomes[i].2 == member { "own-invitation".into() } else { "foreign-invitation".into() }
+}
+
 /// what the member did and what happened to it in the scenario (part of every signature)
 pub fn member_role(w: &World, member: &str) -> String {
     let mut parts: std::collections::BTreeSet<String> = std::collections::BTreeSet::new();
@@ -99,6 +103,9 @@ pub fn abstract_trace(cx: &Ctx, acts: &[Action]) -> String {
             Action::MergeOwn => format!("merge_own->{}", e.result),
             Action::ClearPending => format!("clear_pending->{}", e.result),
             Action::Restart => "restart".to_string(),
+            Action::Welcome(i) => format!("process_welcome({})->{}", welcome_class(cx.w, &cx.g.member, *i), e.result),
+            Action::Accept(i) => format!("accept_welcome({})->{}", welcome_class(cx.w, &cx.g.member, *i), e.result),
+            Action::Decline(i) => format!("decline_welcome({})->{}", welcome_class(cx.w, &cx.g.member, *i), e.result),
         };
         out.push(step);
         s = e.target;
@@ -725,6 +732,109 @@ pub fn check_c02(cx: &Ctx, rep: &mut Report) {
                     let (c, intact, st) = msg_status(w, &g.states[s], i);
                     rep.case(&format!("q|{}|{c}|{intact}|{st}|{:?}", event_class(w, member, i), classify(w, member, &g.states[s])));
                     rep.outcome(&format!("quiescent-msg:{}x{}", if st.is_empty() { "absent" } else { &st }, c));
+                }
+            }
+        }
+    }
+}
+
+// ---------------------------------------------------------------------------------------
+// C03: only members of the sending epoch obtain plaintext
+// ---------------------------------------------------------------------------------------
+
+pub fn check_c03(cx: &Ctx, rep: &mut Report) {
+    let g = cx.g;
+    let w = cx.w;
+    let me = &g.member;
+    for (path, exp, got) in &w.roster_mismatches {
+        rep.finding(
+            format!("C03|roster-after-operation|expected-{}-got-{}", exp.len(), got.len()),
+            format!("after the scripted operations leading to node {path:?} the group's roster is {got:?}, the operations name {exp:?}"),
+            json!({"scenario": w.sc, "node": path, "expected": exp, "implementation": got}),
+        );
+    }
+    let removed_on_spine = w.spine.iter().any(|p| w.nodes[p].members.iter().any(|m| m == me)) && !w.leaf().members.iter().any(|m| m == me);
+    let was_member_at = |i: usize| -> bool { w.nodes.get(&w.pool[i].node).map(|n| n.members.iter().any(|m| m == me)).unwrap_or(false) };
+    let msg_idx: Vec<usize> = (0..w.pool.len()).filter(|i| w.pool[*i].kind == EvKind::Msg).collect();
+    let mut reported: std::collections::BTreeSet<String> = Default::default();
+    for s in 0..g.states.len() {
+        let st = &g.states[s];
+        // (a) stored plaintext is a subset of what the observer was entitled to
+        let stored: Vec<&Value> = st.g.as_ref().map(|x| x.messages.iter().collect()).unwrap_or_default();
+        for i in &msg_idx {
+            let want = w.pool[*i].rumor.as_ref().unwrap();
+            let has = stored.iter().any(|m| m["content"] == want.content.as_str() || Some(m["id"].as_str().unwrap_or("")) == want.id.map(|x| x.to_hex()).as_deref());
+            rep.case(&format!("stored|{}|{}|{}", was_member_at(*i), has, st.g.as_ref().map(|x| x.record_state.clone()).unwrap_or("none".into())));
+            if has && !was_member_at(*i) && w.pool[*i].author != *me {
+                let class = format!("plaintext-stored|{}", member_role(w, me));
+                if reported.insert(class.clone()) {
+                    let path = g.path_to(s);
+                    rep.finding(format!("C03|{class}|{}", abstract_trace(cx, &path)), format!("observer {me} stores the content of {} although it was not a member in that epoch", w.pool[*i].label), detail(cx, &path, json!({"message": w.pool[*i].label})));
+                }
+            }
+        }
+        if st.foreign_msgs > 0 {
+            let class = "stored-in-foreign-group".to_string();
+            if reported.insert(class.clone()) {
+                let path = g.path_to(s);
+                rep.finding(format!("C03|{class}|{}", abstract_trace(cx, &path)), format!("observer {me} stored group traffic in an unrelated group"), detail(cx, &path, json!({})));
+            }
+        }
+        // (b) once the own removal is processed the group is inactive: cannot send
+        if st.send_ok == Some(true) && st.g.as_ref().map(|x| !x.own_leaf).unwrap_or(false) {
+            let class = "send-after-eviction".to_string();
+            if reported.insert(class.clone()) {
+                let path = g.path_to(s);
+                rep.finding(format!("C03|{class}|{}", abstract_trace(cx, &path)), format!("{me} can still create a message in a group that is inactive for it"), detail(cx, &path, json!({})));
+            }
+        }
+        for e in &g.edges[s] {
+            // (c) no ApplicationMessage result for a message of an epoch the observer was not in
+            if let (Action::Deliver(i), Some(_)) = (e.action, &e.msg) {
+                rep.outcome(&format!("appmsg-result:member-at-epoch={}", was_member_at(i)));
+                if !was_member_at(i) && w.pool[i].author != *me {
+                    let class = format!("plaintext-returned|{}", member_role(w, me));
+                    if reported.insert(class.clone()) {
+                        let mut path = g.path_to(s);
+                        path.push(e.action);
+                        rep.finding(format!("C03|{class}|{}", abstract_trace(cx, &path)), format!("observer {me} is handed the plaintext of {}", w.pool[i].label), detail(cx, &path, json!({})));
+                    }
+                }
+            }
+            // (d) in a group that is inactive for the observer nothing more is stored
+            if let (Some(a), Some(b)) = (&st.g, &g.states[e.target].g) {
+                if a.record_state == "inactive" && !a.own_leaf && b.record_state == "inactive" && b.messages.len() > a.messages.len() {
+                    let class = "read-after-eviction".to_string();
+                    if reported.insert(class.clone()) {
+                        let mut path = g.path_to(s);
+                        path.push(e.action);
+                        rep.finding(format!("C03|{class}|{}", abstract_trace(cx, &path)), format!("{me} stores a message in a group that is inactive for it"), detail(cx, &path, json!({})));
+                    }
+                }
+            }
+            // (d2) a client evicted on the winning branch (and never re-invited) does not become active again
+            if removed_on_spine {
+                if let (Some(a), Some(b)) = (&st.g, &g.states[e.target].g) {
+                    if a.record_state == "inactive" && !a.own_leaf && b.record_state != "inactive" {
+                        let class = format!("reactivated-after-eviction:{}", b.record_state);
+                        if reported.insert(class.clone()) {
+                            let mut path = g.path_to(s);
+                            path.push(e.action);
+                            let last = abstract_trace(cx, &path).rsplit(';').next().unwrap_or("").to_string();
+                            rep.finding(format!("C03|{class}|via={last}"), format!("{me} was evicted, yet the group leaves the inactive state again without a new invitation: {}", trace_labels(cx, &path).join(" ; ")), detail(cx, &path, json!({})));
+                        }
+                    }
+                }
+            }
+            // (e) a welcome that was not accepted never yields an active group / plaintext (also C16)
+            if let Some(b) = &g.states[e.target].g {
+                if matches!(e.action, Action::Welcome(_)) && b.record_state == "active" && st.g.as_ref().map(|a| a.record_state != "active").unwrap_or(true) {
+                    let class = "active-without-accept".to_string();
+                    if reported.insert(class.clone()) {
+                        let mut path = g.path_to(s);
+                        path.push(e.action);
+                        rep.finding(format!("C03|{class}|{}", abstract_trace(cx, &path)), format!("processing an invitation alone made the group active for {me}"), detail(cx, &path, json!({})));
+                    }
                 }
             }
         }
